@@ -1,4 +1,4 @@
-import CifModel.Lemmas.WriterLinesC
+import CifModel.Lemmas.WriterRoundtripC
 import CifModel.Props.C02Doc
 /-
   Property C02 — "no line longer than 2048 CHARACTERS", in characters.  `C02_line_bound` (Props/C02Doc.lean) bounds the lines in code
@@ -27,35 +27,8 @@ theorem C02_charLength_le (l : Str) : C02_charLength l ≤ l.length ∧ C02_char
     (codes ≤ 2043 units, header names ≤ 2047 / 2048 units, item names ≤ 2048 units) are gone — names and codes of supplementary-plane
     characters up to the API's limits are covered (`C02_cex_line_units`: for them the unit-level bound is false). -/
 theorem C02_line_bound_chars (version : Nat) (cif : WCif) (out : Str) (h : containersLC cif)
-    (hw : writeCif version cif = .ok out) : ∀ l ∈ splitLines out, C02_charLength l ≤ LINE := by
-  unfold writeCif at hw
-  simp only at hw
-  generalize hc0 : ({ version := if version = 1 then 1 else 0 } : Ctx) = c0 at hw
-  have hcol : c0.lastColumn = 0 := by rw [← hc0]
-  have hsep : c0.separateValues = true := by rw [← hc0]
-  have L : LineOkS c0 (andThen (.ok ((if c0.isCif1 then MAGIC11 else MAGIC20), c0)) fun c1 =>
-      andThen (writeContainers cif c1) fun c2 => .ok (writeNewline c2)) := by
-    apply lineOkS_andThen_ok
-    · apply lineOkS_ok' ?_ rfl
-      apply lineOkC_of
-      apply lineOk_of_track c0 _ _ (by rw [hcol]; exact Nat.zero_le _)
-      intro _ k hk
-      have hk0 : k = 0 := by omega
-      subst hk0
-      split
-      · rw [hcol]; decide
-      · rw [hcol]; decide
-    · apply lineOkS_andThen (lineOkS_containers cif c0 h)
-      intro c2; exact lineOkS_newline c2
-  cases hr : (andThen (.ok ((if c0.isCif1 then MAGIC11 else MAGIC20), c0)) fun c1 =>
-      andThen (writeContainers cif c1) fun c2 => (.ok (writeNewline c2) : W)) with
-  | error e => simp [hr] at hw
-  | ok p =>
-    obtain ⟨o, c'⟩ := p
-    simp only [hr, Except.ok.injEq] at hw
-    subst hw
-    obtain ⟨_, _, hfit⟩ := L hsep (by rw [hcol]; exact Nat.zero_le _) o c' hr
-    exact all_lines_of_fitsC o (hfit 0 (Nat.zero_le _)).1
+    (hw : writeCif version cif = .ok out) : ∀ l ∈ splitLines out, C02_charLength l ≤ LINE :=
+  all_lines_of_fitsC out (write_fitsC version cif out h hw)
 
 /-- the hypotheses of `C02_line_bound` imply those of `C02_line_bound_chars` -/
 theorem C02_line_hypotheses_chars (cif : WCif) (h : containersL cif) : containersLC cif := containersLC_of_L cif h
@@ -83,11 +56,10 @@ theorem C02_cex_line_units :
   · refine ⟨⟨⟨by decide +kernel, by decide +kernel⟩, trivial, ?_⟩, trivial⟩
     intro l hl
     simp only [List.mem_singleton] at hl; subst hl
-    refine ⟨fun n hn => ?_, fun p hp nv hnv => ?_⟩
-    · simp only [C02Doc.scalar1, List.mem_singleton] at hn; subst hn; exact ⟨by decide, by decide⟩
-    · simp only [C02Doc.scalar1, List.mem_singleton] at hp; subst hp
-      simp only [List.mem_singleton] at hnv; subst hnv
-      exact ⟨⟨by decide, by decide⟩, by decide⟩
+    refine ⟨fun hsc => absurd hsc (by decide), fun p hp nv hnv => ?_⟩
+    simp only [C02Doc.scalar1, List.mem_singleton] at hp; subst hp
+    simp only [List.mem_singleton] at hnv; subst hnv
+    exact ⟨⟨by decide, by decide⟩, fun _ => by decide⟩
   · intro h
     have : (C02Lines.faces 1022).length + 5 ≤ LINE := h.1.1.2
     revert this
@@ -99,6 +71,38 @@ theorem C02_cex_line_units :
       simp only [List.any_eq_true, Bool.and_eq_true, beq_iff_eq] at hok
       obtain ⟨l, hl, h1, h2⟩ := hok
       exact ⟨out, rfl, l, hl, h1, h2⟩
+
+open Lemmas.WriterChunks in
+/-- **C02_roundtrip_doc_nl** — `C02_roundtrip_doc` WITHOUT its line-length hypothesis `containersL`: for every walk order `cif` that
+    `cif_write` accepts in CIF 2.0 mode, under `cifR` (allowed characters, valid keys, the scalar loop has one packet, …) and
+    `blocksN` (valid, pairwise different codes and names; loops with header and packets) alone, the integrated parser model under
+    EVERY callback policy returns CIF_OK, reports nothing, and leaves the blocks, frames, loops, packets and values written.
+    The hypothesis was needed only to keep the output's lines within the scanner's limit; that now follows from
+    `C02_line_bound_chars`, whose hypotheses are consequences of `cifR` and `blocksN` (`containersLC_of_RN`: `cif_is_valid_name`
+    bounds codes and names in characters and forbids line feeds). -/
+theorem C02_roundtrip_doc_nl (o : Model.Parser.Opts) (pol : Model.Lexer.Policy) (cif : WCif) (out : Str)
+    (hdia : o.dia = .cif2) (hun : o.unfold = true) (hpr : o.prem = true)
+    (hstore : o.store = true) (hmfd : o.maxFrameDepth ≠ 0) (hutf : o.notUtf8 = false)
+    (hR : cifR o.dia o.normKey cif) (hN : blocksN o cif [])
+    (hw : writeCif 0 cif = .ok out) :
+    ∃ back, Model.Parser.parse o pol [] out = { rc := 0, log := [], cif := back } ∧ All2 backBlock cif back :=
+  roundtrip_doc_nl 0 o pol cif out (by rw [hdia]; rfl) hun hpr hstore hmfd hutf hR hN hw
+
+open Lemmas.WriterChunks in
+/-- the line bound for everything the round trip covers: under `cifR` and `blocksN` no line of the output has more than 2048
+    characters -/
+theorem C02_line_bound_of_valid (version : Nat) (o : Model.Parser.Opts) (cif : WCif) (out : Str)
+    (hR : cifR o.dia o.normKey cif) (hN : blocksN o cif []) (hw : writeCif version cif = .ok out) :
+    ∀ l ∈ splitLines out, C02_charLength l ≤ LINE :=
+  C02_line_bound_chars version cif out (containersLC_of_RN o cif [] hR hN) hw
+
+open Lemmas.WriterChunks in
+-- non-vacuity of `C02_roundtrip_doc_nl`: the sample of `C02_roundtrip_doc`, without its `containersL`
+example (pol : Model.Lexer.Policy) : ∃ out back, writeCif 0 C02Doc.sample = .ok out
+    ∧ Model.Parser.parse C01parse.opts2 pol [] out = { rc := 0, log := [], cif := back } ∧ All2 backBlock C02Doc.sample back := by
+  obtain ⟨_, hR, hN, out, hw⟩ := C02_roundtrip_doc_instance
+  obtain ⟨back, hp, hb⟩ := C02_roundtrip_doc_nl C01parse.opts2 pol C02Doc.sample out rfl rfl rfl rfl (by decide) rfl hR hN hw
+  exact ⟨out, back, hw, hp, hb⟩
 
 -- non-vacuity: the sample document of `C02_roundtrip_doc` satisfies the hypotheses
 example : containersLC C02Doc.sample := C02_line_hypotheses_chars _ C02_roundtrip_doc_instance.1
